@@ -389,15 +389,32 @@ func runCase(p Prop, d *Driver, in map[string]any) (v Verdict, errStr string) {
 	if err != nil {
 		return Verdict{}, err.Error()
 	}
-	defer func() {
-		if r := recover(); r != nil {
-			buf := make([]byte, 4096)
-			n := runtime.Stack(buf, false)
-			v = Verdict{Violations: []Viol{{Sig: "harness-panic", What: fmt.Sprintf("panic while checking: %v\n%s", r, buf[:n])}}}
-			errStr = ""
-		}
+	// the implementation side runs under recover and a watchdog: a panic or a hang is an outcome
+	type res struct {
+		v Verdict
+	}
+	done := make(chan res, 1)
+	go func() {
+		defer func() {
+			if r := recover(); r != nil {
+				buf := make([]byte, 4096)
+				n := runtime.Stack(buf, false)
+				sig := "panic"
+				msg := fmt.Sprint(r)
+				if len(msg) >= 5 && msg[:5] == "hang:" {
+					sig = "hang"
+				}
+				done <- res{Verdict{Violations: []Viol{{Sig: sig, What: fmt.Sprintf("the library panicked: %v\n%s", r, buf[:n])}}}}
+			}
+		}()
+		done <- res{p.Check(in, model)}
 	}()
-	return p.Check(in, model), ""
+	select {
+	case r := <-done:
+		return r.v, ""
+	case <-time.After(20 * time.Second):
+		return Verdict{Violations: []Viol{{Sig: "hang", What: "the call did not return within 20 s"}}}, ""
+	}
 }
 
 func digest(v any) string {
